@@ -102,6 +102,17 @@ def chunk_ab_set (_E : Nat) (c : Chunk) (n : Nat) (s : St) : St × Outcome Unit 
     else (s, .bad "store to allocated_bytes of a chunk that is not current")
   | [] => (s, .bad "store to allocated_bytes of the static empty chunk")
 
+/-- the global allocator (`alloc::alloc(layout)`): the next answer of the environment; a null pointer is `0`.  An
+answer that violates the allocator contract (`mallocOK`: non-null, aligned, inside the address space, disjoint from
+everything the arena holds and from the static) is the environment's fault, not the crate's -/
+def malloc (E : Nat) (l : Layout) (s : St) : St × Outcome Nat :=
+  match s.malloc l.size l.align with
+  | (s', none) => (s', .ok 0)
+  | (s', some addr) => if !mallocOK E s.a.chunks l.size l.align addr then (s', .envBad) else (s', .ok addr)
+
+/-- `NonNull::new` -/
+def nonNullNew (a : Nat) : Option Nat := if a = 0 then none else some a
+
 /-- `ptr::copy_nonoverlapping(src, dst, n)` -/
 def copy_nonoverlapping (src dst n : Nat) (s : St) : St × Outcome Unit :=
   if rangesOverlap src dst n then (s, .bad "copy_nonoverlapping on overlapping ranges")
